@@ -456,6 +456,12 @@ def w_patches(ctx, rng, i):
             ctx.tap("write_back", "calls"); ctx.tap("write_back", "checked")
             if not np.array_equal(back.pixels, im.pixels):
                 ctx.fail("writing_extracted_patches_back_does_not_restore_the_image", cls=cls, mech="%d_%d" % (ph % 2, pw % 2))
+            # the landmark-group wrapper is the same operation
+            im2 = im.copy()
+            im2.landmarks["centres"] = pc
+            back2 = im2.set_patches_around_landmarks(p0, group="centres", offset=off, offset_index=oi)
+            if not np.array_equal(back2.pixels, im.pixels):
+                ctx.fail("writing_extracted_patches_back_does_not_restore_the_image", cls=cls, mech="around_landmarks:offset_index_%s" % ("0" if oi == 0 else "k"))
             blank = type(im)(np.zeros_like(im.pixels)) if cls == "Image" else im.copy()
             filled = blank.set_patches(p0, pc, offset=off, offset_index=oi)
             again = filled.extract_patches(pc, patch_shape=(ph, pw), sample_offsets=offs)
